@@ -1,6 +1,5 @@
-SOURCES = ['String.cpp']
-HARNESS = 'h_c16.cpp'
-ENV = ['vlibc.c']
+GROUPS = [{'name': 'main', 'sources': ['String.cpp'], 'harness': 'h_c16.cpp', 'env': ['vlibc.c']},
+          {'name': 'file', 'sources': ['File.cpp', 'String.cpp'], 'harness': 'h_c16_file.cpp', 'env': ['vlibc.c', 'vstdio.c']}]
 
 
 def instances(tier):
@@ -13,10 +12,12 @@ def instances(tier):
             out.append({'entry': 'h_array', 'params': [k, ln], 'bound': 'arrays of %d elements of kind %d, all bit patterns, all three byte orders' % (ln, k)})
     for n in (1, 3):
         out.append({'entry': 'h_string', 'params': [n], 'bound': 'strings of %d NUL-free bytes' % n})
+    for p in ([1, -1, 0], [2, -1, 0], [0, 1, 2], [0, 3, 2], [1, 1, 1]) if q else ([1, -1, 0], [2, -1, 0], [3, -1, 0], [0, 1, 3], [0, 3, 3], [1, 1, 2], [1, 3, 2]):
+        out.append({'group': 'file', 'entry': 'h_file_seq', 'params': p, 'bound': 'File operator<< / >>: %d scalar(s) of any of 8 types, then an array (kind %d) of %d elements; all bit patterns, all byte orders' % tuple(p)})
     return out
 
 
 BOUNDS = {'quick': 'sequences of 1-2 typed scalars with a byte-order switch at any point; arrays of 0,1,3 elements of byte/short/int/Long/float/double; strings of 1 and 3 bytes',
           'thorough': 'sequences of up to 3 scalars; arrays up to 5 elements'}
-OUTSIDE = ['sequences longer than 3 values (the property text asks for 64)', 'arrays longer than 5', 'the File and Socket variants of the operators (same template code; their transport is covered by C17/C10 harnesses where built)']
+OUTSIDE = ['sequences longer than 3 values (the property text asks for 64)', 'arrays longer than 5', 'the Socket variants of the operators']
 ASSUMPTIONS = ['target is little-endian x86-64 (ENDIAN_NATIVE == ENDIAN_LITTLE)']
